@@ -32,6 +32,8 @@ type guardTr struct {
 	ver    map[string]int      // tracked integer targets: number of top-level re-assignments so far (later atoms get primes)
 	bools  map[string]bool     // identifiers used as bare conditions
 	blk    int                 // nesting depth of the block being rendered
+	hoisted map[*ast.CallExpr]string // boolean helpers of the package used inside a condition, rendered in front of the `if`
+	nhoist *int
 	ncall  map[string]int      // per callee: call sites named so far (the k-th is `<callee>@k` for k > 1)
 }
 
@@ -100,9 +102,32 @@ func (t *guardTr) isLocalCall(c *ast.CallExpr) (string, bool) {
 			a, _ := t.atom(f)
 			return a, true
 		}
+		if t.v2 {
+			// a method of a type of this package called on a local value: the method name identifies it when it is unique
+			// in the package and no listed external callee has that spelling
+			if t.cfg != nil && inList(t.cfg.acts, t.calleeName(c.Fun)) {
+				return "", false
+			}
+			n := 0
+			for k := range t.p.funcs {
+				if strings.HasSuffix(k, "."+f.Sel.Name) {
+					n++
+				}
+			}
+			if _, isPkgFn := t.p.funcs[f.Sel.Name]; n == 1 && !isPkgFn && !stdMethod[f.Sel.Name] {
+				return f.Sel.Name, true
+			}
+		}
 	}
 	return "", false
 }
+
+// method names that are common in the standard library: a call `x.Read(…)` on a local value is not taken for the package's
+// own method of that name
+var stdMethod = map[string]bool{"Read": true, "Write": true, "Close": true, "String": true, "Error": true, "Lock": true, "Unlock": true,
+	"Reset": true, "Get": true, "Put": true, "Set": true, "Flush": true, "Header": true, "Bytes": true, "Done": true, "Err": true, "Stop": true,
+	"Load": true, "Store": true, "Add": true, "Values": true, "Encode": true, "Decode": true, "ReadFrom": true, "WriteHeader": true, "Hijack": true}
+
 
 func (t *guardTr) cond(e ast.Expr) string {
 	switch e := e.(type) {
@@ -125,6 +150,9 @@ func (t *guardTr) cond(e ast.Expr) string {
 			return fmt.Sprintf(".not (%s)", t.cond(e.X))
 		}
 	case *ast.CallExpr:
+		if h, ok := t.hoisted[e]; ok {
+			return ".v " + leanStr(h)
+		}
 		if name, ok := t.isLocalCall(e); ok {
 			// zero-argument methods are boolean atoms (c.flate()); others are boolean helpers evaluated in place
 			if len(e.Args) == 0 {
@@ -244,6 +272,9 @@ func (t *guardTr) normExpr(e ast.Expr) string {
 	case *ast.IndexExpr:
 		if t.v2 {
 			xs, ix := t.normExpr(x.X), t.normExpr(x.Index)
+			if strings.HasPrefix(xs, "make(map[") {
+				return "lookup(" + xs + ")"
+			}
 			if ix == "idx("+xs+")" {
 				return "elem(" + xs + ")"
 			}
@@ -310,6 +341,9 @@ func (t *guardTr) helperDecl(c *ast.CallExpr, name string) *ast.FuncDecl {
 	if len(cands) != 1 || cands[0].Body == nil {
 		return nil
 	}
+	if t.v2 && !decides(cands[0]) {
+		return nil
+	}
 	return cands[0]
 }
 
@@ -320,6 +354,10 @@ func (t *guardTr) inlineHelper(fd *ast.FuncDecl, c *ast.CallExpr) string {
 	if t.v2 {
 		t2.v2, t2.cfg = true, t.cfg
 		t2.prepass(fd)
+		if t.nhoist == nil {
+			t.nhoist = new(int)
+		}
+		t2.nhoist = t.nhoist
 	}
 	if fd.Recv != nil && len(fd.Recv.List) == 1 && len(fd.Recv.List[0].Names) == 1 {
 		t2.recv[fd.Recv.List[0].Names[0].Name] = true
@@ -330,6 +368,8 @@ func (t *guardTr) inlineHelper(fd *ast.FuncDecl, c *ast.CallExpr) string {
 			if i < len(c.Args) {
 				if a, ok := t.atom(c.Args[i]); ok {
 					t2.rename[n.Name] = a
+				} else if bl, ok := c.Args[i].(*ast.BasicLit); ok && t.v2 {
+					t2.rename[n.Name] = strings.ReplaceAll(bl.Value, " ", "")
 				}
 			}
 			i++
@@ -347,6 +387,9 @@ func (t *guardTr) callActs(e ast.Expr) []string {
 	if c, ok := e.(*ast.CallExpr); ok {
 		if name, ok := t.isLocalCall(c); ok {
 			if t.v2 && t.cfg != nil && inList(t.cfg.pure, name) {
+				return nil
+			}
+			if t.v2 && t.cfg != nil && !inList(t.cfg.local, name) && !inList(t.cfg.lfull, name) && t.isPureHelper(c) {
 				return nil
 			}
 			if fd := t.helperDecl(c, name); fd != nil {
@@ -421,6 +464,9 @@ func (t *guardTr) stmt(s ast.Stmt) []string {
 		var pre []string
 		if s.Init != nil {
 			pre = t.stmt(s.Init)
+		}
+		if t.v2 {
+			pre = append(pre, t.hoistHelpers(s.Cond)...)
 		}
 		c := t.cond(s.Cond)
 		if s.Else == nil {
@@ -608,7 +654,19 @@ func (t *guardTr) stmt(s ast.Stmt) []string {
 			return []string{".skip"}
 		}
 		return out
-	case *ast.DeclStmt, *ast.IncDecStmt, *ast.EmptyStmt:
+	case *ast.DeclStmt:
+		if gd, ok := s.Decl.(*ast.GenDecl); ok && t.v2 && gd.Tok == token.CONST {
+			for _, sp := range gd.Specs {
+				if vs, ok := sp.(*ast.ValueSpec); ok && len(vs.Names) == len(vs.Values) {
+					for i, n := range vs.Names {
+						t.defs[n.Name] = t.normExpr(vs.Values[i])
+						t.nasg[n.Name] = 1
+					}
+				}
+			}
+		}
+		return []string{".skip"}
+	case *ast.IncDecStmt, *ast.EmptyStmt:
 		return []string{".skip"}
 	case *ast.BlockStmt:
 		var out []string
@@ -694,4 +752,87 @@ func indexLoop(s *ast.ForStmt) (ast.Expr, string, bool) {
 		return nil, "", false
 	}
 	return call.Args[0], iv.Name, true
+}
+
+// decides: the function has no result, or an error / boolean result — something a caller can branch on.
+func decides(fd *ast.FuncDecl) bool {
+	if fd.Type.Results == nil || len(fd.Type.Results.List) == 0 {
+		return true
+	}
+	for _, f := range fd.Type.Results.List {
+		if id, ok := f.Type.(*ast.Ident); ok && (id.Name == "error" || id.Name == "bool") {
+			return true
+		}
+	}
+	return false
+}
+
+// isPureHelper: a uniquely named function of the package that returns values but neither an error nor a boolean.
+func (t *guardTr) isPureHelper(c *ast.CallExpr) bool {
+	var sel string
+	switch f := c.Fun.(type) {
+	case *ast.Ident:
+		sel = f.Name
+	case *ast.SelectorExpr:
+		sel = f.Sel.Name
+	default:
+		return false
+	}
+	var cands []*ast.FuncDecl
+	for k, fd := range t.p.funcs {
+		if k == sel || strings.HasSuffix(k, "."+sel) {
+			cands = append(cands, fd)
+		}
+	}
+	return len(cands) == 1 && cands[0].Body != nil && !decides(cands[0])
+}
+
+// hoistHelpers renders boolean helpers of the package that a condition calls in front of the `if`, each deciding a
+// temporary atom the condition then reads.
+func (t *guardTr) hoistHelpers(e ast.Expr) []string {
+	var out []string
+	ast.Inspect(e, func(n ast.Node) bool {
+		c, ok := n.(*ast.CallExpr)
+		if !ok {
+			return true
+		}
+		if _, isLit := c.Fun.(*ast.FuncLit); isLit {
+			return false
+		}
+		name, ok := t.isLocalCall(c)
+		if !ok || len(c.Args) == 0 {
+			return true
+		}
+		fd := t.helperDecl(c, name)
+		if fd == nil || fd.Type.Results == nil || len(fd.Type.Results.List) != 1 || hasLoop(fd) {
+			return true
+		}
+		if id, ok := fd.Type.Results.List[0].Type.(*ast.Ident); !ok || id.Name != "bool" {
+			return true
+		}
+		if t.hoisted == nil {
+			t.hoisted = map[*ast.CallExpr]string{}
+		}
+		if t.nhoist == nil {
+			t.nhoist = new(int)
+		}
+		*t.nhoist++
+		h := fmt.Sprintf("$h%d", *t.nhoist)
+		t.hoisted[c] = h
+		out = append(out, fmt.Sprintf(".scope %s %s", leanStr(h), t.inlineHelper(fd, c)))
+		return false
+	})
+	return out
+}
+
+func hasLoop(fd *ast.FuncDecl) bool {
+	found := false
+	ast.Inspect(fd.Body, func(n ast.Node) bool {
+		switch n.(type) {
+		case *ast.ForStmt, *ast.RangeStmt:
+			found = true
+		}
+		return !found
+	})
+	return found
 }
